@@ -31,6 +31,12 @@ nx = lambda a, b, l: l.startswith('exc:')
 
 def check(run):
     R = run
+    R.rule('C03.shared', 'objects created once per class / per function definition (class-level attributes, parameter '
+           'defaults) are only read (no frame/header cache or lock shared across instances by accident); a failed '
+           'sendall() is never re-issued', 3)
+    from .common import shared_state, no_send_retry
+    shared_state(R, 'C03.shared')
+    no_send_retry(R, 'C03.shared')
     R.rule('C03.once', 'exactly one session.send|send_compressed on every normal path of each public send method; '
                        'none before a TypeError/ValueError raise; send_json -> exactly one send_text', 6)
     R.rule('C03.argcheck', 'the isinstance test on the payload parameter dominates every other use of it', 4)
